@@ -280,7 +280,15 @@ func (c *Chain) Commit() (ok bool) {
 				}
 			}
 			if err != nil && c.ValSetErr == nil {
-				c.ValSetErr = fmt.Errorf("height %d: %w", c.Header.Height, err)
+				desc := "set:"
+				for _, v := range c.ValSet.Validators {
+					desc += fmt.Sprintf(" %X=%d", v.Address.Bytes()[:4], v.VotingPower)
+				}
+				desc += " updates:"
+				for _, v := range tm {
+					desc += fmt.Sprintf(" %X=%d", v.Address.Bytes()[:4], v.VotingPower)
+				}
+				c.ValSetErr = fmt.Errorf("height %d: %w [%s]", c.Header.Height, err, desc)
 			}
 		}
 	}
